@@ -47,9 +47,13 @@ def fill(n):
     """a case recorded before properties carried has_default / disabled: add the fields (TLC's records of one
     family have the same fields); in place, returns n"""
     k = n.get("kind")
-    if k == "list":
+    if k in ("int", "float", "string"):
+        n.setdefault("units", "none")
+    elif k == "list":
+        n.setdefault("impl", "plain")
         fill(n["items"])
     elif k == "map":
+        n.setdefault("impl", "plain")
         fill(n["keys"]); fill(n["vals"])
     elif k == "object":
         n.setdefault("impl", "plain")
@@ -78,7 +82,7 @@ def _denote(n, table):
 
 
 def _bounds(n):
-    return (json.dumps(n.get("min"), sort_keys=True), json.dumps(n.get("max"), sort_keys=True))
+    return (json.dumps(n.get("min"), sort_keys=True), json.dumps(n.get("max"), sort_keys=True), n.get("impl", "plain"))
 
 
 def focus(a, b, with_path=False):
@@ -225,7 +229,10 @@ def features(n, out=None):
     """property flags occurring anywhere in the schema (for the signature of a reflexivity failure)"""
     out = set() if out is None else out
     k = n["kind"]
-    if k == "list":
+    if k in ("int", "float") and n.get("units", "none") != "none":
+        out.add("units")
+        out.add("@" + k)
+    elif k == "list":
         features(n["items"], out)
     elif k == "map":
         features(n["keys"], out); features(n["vals"], out)
@@ -261,7 +268,8 @@ def signature(case, divergence, frame="", detail=""):
       * an error for a pair that has to be accepted (the same schema on both sides): the two sides do not
         differ anywhere, so the wrappers above and their bounds say nothing about the defect; if the schema
         carries property flags (disabled, default) the signature names the object kind and the flags
-        ("self:disabled_property"), else the top kinds and "self";
+        ("self:disabled_property"), if it carries units the int / float kind and "self:units", else the top
+        kinds and "self";
       * otherwise: the nodes at which the two schemas differ."""
     if divergence in ("stack_overflow", "hang", "fatal"):
         side = lambda n: "recursive_scope" if has_cycle(n) else "acyclic"
@@ -286,9 +294,13 @@ def signature(case, divergence, frame="", detail=""):
                 sig.update(consumer=kind, producer=kind, bounds=bounds_pattern(*cands[0]))
     elif divergence == "rejects" and _canon(case["a"]) == _canon(case["b"]):
         feats = features(case["a"])
+        unit_kinds = sorted(f[1:] for f in feats if f.startswith("@"))
+        feats = {f for f in feats if not f.startswith("@")}
         sig["bounds"] = ""
         sig["rule"] = "self" + (":" + "+".join(sorted(feats)) if feats else "")
-        if feats:
+        if feats == {"units"}:
+            sig["consumer"] = sig["producer"] = unit_kinds[0]
+        elif feats:
             sig["consumer"] = sig["producer"] = "object"
     elif divergence in ("accepts", "rejects"):
         sig["rule"] = "+".join(sorted(case.get("rules") or []))
@@ -361,7 +373,7 @@ def consume(ctx, cases, results, stats, retry=False):
             stats[div] = stats.get(div, 0) + 1
             stats["run"] = stats.get("run", 0) + 1
             ctx.violation(signature(case, div, detail=detail), dict(case=case, crash=res["crash"], detail=detail[:2500]))
-            ctx.distinct.add(common.sha([case["a"], case["b"], case["mode"]]))
+            ctx.distinct.add(common.sha([case["a"], case["b"], case["mode"], case.get("hist", "none")]))
             continue
         r = res["res"]
         if r.get("harness_error") or r.get("harness_panic"):
@@ -377,7 +389,7 @@ def consume(ctx, cases, results, stats, retry=False):
         stats["run"] = stats.get("run", 0) + 1
         trivial = case["a"] == case["b"] and case["a"]["kind"] in ("bool", "pattern", "any")
         if not trivial:
-            ctx.distinct.add(common.sha([case["a"], case["b"], case["mode"]]))
+            ctx.distinct.add(common.sha([case["a"], case["b"], case["mode"], case.get("hist", "none")]))
         stats.setdefault("shapes", set()).add((shape(case["a"]), shape(case["b"]), case["mode"], case.get("exp", "")))
         div = r.get("divergence")
         exp = case.get("exp")
@@ -393,7 +405,8 @@ def consume(ctx, cases, results, stats, retry=False):
                                                         msg=r.get("msg"), first_err=r.get("first_err"))))
             continue
         if exp is None:
-            lines.append(dict(a=case["a"], b=case["b"], mode=case["mode"], verdict="nil" if r["nil"] else "err"))
+            lines.append(dict(a=case["a"], b=case["b"], mode=case["mode"], hist=case.get("hist", "none"),
+                              verdict="nil" if r["nil"] else "err"))
     return lines
 
 
@@ -428,7 +441,8 @@ def validate_trace(ctx, lines, stats):
                 continue
             div = "accepts" if line["verdict"] == "nil" else "rejects"
             stats["trace_" + div] = stats.get("trace_" + div, 0) + 1
-            case = dict(a=line["a"], b=line["b"], mode=line["mode"], exp=d["exp"], rules=list(d["rules"]))
+            case = dict(a=line["a"], b=line["b"], mode=line["mode"], hist=line.get("hist", "none"), exp=d["exp"],
+                        rules=list(d["rules"]))
             ctx.violation(signature(case, div),
                           dict(case=case, trace_line=line, differs_at=where(case),
                                note="CompatTrace rejects this recorded line: the verdict contradicts "
@@ -440,7 +454,8 @@ def run(ctx):
     stats = {}
     ctx.rule = ("every state of CompatMC is one case (consumer, producer, mode): all ordered pairs of the "
                 "generated universe (objects with required x default x disabled property flags, struct-mapped and typed "
-                "objects included) at depth 1, same-family and representative cross-family pairs under 7 "
+                "objects, ints and floats with units, typed lists and maps in every bound shape included; histories: "
+                "one side parsed unit-suffixed strings first) at depth 1, same-family and representative cross-family pairs under 7 "
                 "wrappers at depth 2, under wrapper pairs at depth 3; modes direct / same instance / producer or "
                 "consumer rebuilt from its description; each case = %d calls of ValidateCompatibility; plus seeded "
                 "random pairs (depth <= 5) validated by CompatTrace.  distinct = distinct (consumer AST, producer "
@@ -500,6 +515,13 @@ def run(ctx):
         "not judged in the rebuilt modes (counted as not_describable); UnserializeScope returns unlinked "
         "references, the harness calls ApplySelf() itself",
         "string enum values and one-of keys are tokens rendered v<n> / k<n>; float bounds are integral",
+        "units: the statement names no rule on units, pairs with different unit sets are open; the package-level "
+        "unit sets are process state - the harness lets an unrelated schema parse a unit-suffixed string with "
+        "each before any case, so they are always in the used state; histories a / b let the directly built "
+        "consumer / producer parse unit-suffixed strings with its own unit-carrying ints and floats first; no "
+        "expectation depends on the history",
+        "typed lists and maps are instantiated over scalar element types (int, float, string, bool; int or "
+        "string keys)",
     ]
 
 
@@ -508,6 +530,7 @@ def replay(ctx, rp):
     if case is None:
         raise common.Infra("replay file has no case")
     fill(case["a"]); fill(case["b"])
+    case.setdefault("hist", "none")
     stats = {}
     results = run_cases(ctx, [case], "replay", reps=max(200, REPS[ctx.tier]))
     lines = consume(ctx, [case], results, stats)
